@@ -124,7 +124,7 @@ def main():
         ],
         "checks": checks,
         "not_applicable": na,
-        "notes": "All checks: exit 0 held / 1 VIOLATION / 2 INCONCLUSIVE. Genuine defects found are repaired by fix: commits in /repo or listed in known_findings.json (see DESIGN.md §5).",
+        "notes": "All checks: exit 0 held / 1 VIOLATION / 2 INCONCLUSIVE. Genuine defects found are repaired by fix: commits in /repo or listed in /verif/known_findings.json (status known | fixed; see DESIGN.md §5). Sanitizer lanes (valgrind memcheck, Miri Tree Borrows) run inside bin/check C03, the libFuzzer lane inside bin/check C19. Seeded property-breaking changes used to validate the checks are kept under /verif/seeded (DESIGN.md §10); none is applied to /repo.",
     }
     json.dump(man, open(os.path.join(ROOT, "MANIFEST.json"), "w"), indent=1)
     print("wrote MANIFEST.json with", len(checks), "checks,", len(na), "not_applicable")
